@@ -33,7 +33,7 @@ COMPONENTS = {"real": ["pel.peltool.peltool.main() in-process, all decoders"],
 ASSUMPTIONS = ["a damaged copy that a mode still decodes is legitimately reported and is excluded from the equality relation for that mode (it still must not break well-formedness of stdout)",
                "stdout of --json is not required to be JSON (its product is files); the set and bytes of output files are compared instead",
                "interpreter at optimisation level 0 (C05 covers -O)"]
-PROBES = ["junk_other_creator", "junk:torn", "junk:flip", "junk:lost", "junk:garbage", "junk:foreign", "subdir", "junk_still_decodable",
+PROBES = ["class_search_junk", "junk_other_creator", "junk:torn", "junk:flip", "junk:lost", "junk:garbage", "junk:foreign", "subdir", "junk_still_decodable",
           "junk_shares_eid", "mode:-j", "mode:--src-exclude", "hex"]
 
 DIR_MODES = ["-l", "-a", "-n", "--plid", "--src", "--src-exclude", "-j"]
@@ -78,6 +78,8 @@ def gen_plan(rng, tier, run):
             "flags": [x for x in ("-r", "-P") if rng.random() < 0.2],
             "ext": ".pel" if rng.random() < 0.15 else None,
             "hex": rng.random() < 0.25,
+            "class_search": rng.randrange(1, 1 << 16) if rng.random() < 0.3 else 0,
+            "stdout_encoding": rng.choice(["utf-8", "utf-8", "utf-8", "ascii", "latin-1"]),
             "plid": "%08X" % some["plid"],
             "src": ps[0]["ascii"].strip()[:rng.choice([2, 4, 8])] if ps else "BD",
             "exclude": rng.sample(common.REFCODE_POOL, 4),
@@ -152,6 +154,15 @@ def execute(plan):
         bump("process_model:fresh" if w.fresh_per_run else "process_model:shared")
         common.put_store(w, "B", plan["files"])
         w.put("X/exclude.txt", "\n".join(plan["exclude"]).encode())
+        if plan.get("class_search"):
+            # failure-class directed junk: corrupt every size/length/count/flag/id field of one base PEL with a few
+            # values, decode each candidate once with the real parsePEL and keep one representative of each RARE
+            # failure class (exception type) as an additional junk file.  Deterministic function of plan + code.
+            extra = class_search_junk(w, plan)
+            plan["junk"] = plan["junk"] + extra
+            bump("class_search_junk", len(extra))
+            for e in extra:
+                bump("class_search_class:" + e["junk"]["cls"])
         for i, j in enumerate(plan["junk"]):
             common.put_store(w, "J%d" % i, [j])
         for mode in plan["modes"]:
@@ -164,11 +175,16 @@ def execute(plan):
             qualifies = []
             for i, j in enumerate(plan["junk"]):
                 w.mkdir("OUT-J%d" % i)
-                r = w.run(argv_of(plan, mode, "J%d" % i, hexmode), order=order)
+                r = w.run(argv_of(plan, mode, "J%d" % i, hexmode), order=order, stdout_encoding=plan.get("stdout_encoding", "utf-8"))
                 evals += 1
                 events += len(r.events)
                 q = reported_nothing(mode, r, outputs(w, "J%d" % i), hexmode) and r.exit == 0 and not r.exc
                 if plan["ext"] and not common.ext_matches(j["name"], plan["ext"]):
+                    q = True
+                if common.headers_damaged_by_construction(pelgen.build(j["recipe"]), j["junk"]):
+                    # independent of what the tool makes of it: without two intact headers no mode can decode it
+                    if not q:
+                        bump("junk_reported_despite_damaged_headers")
                     q = True
                 qualifies.append(q)
                 if not q:
@@ -191,7 +207,7 @@ def execute(plan):
                     for sd in plan["subdirs"]:
                         w.mkdir(d + "/" + sd["name"])
                         common.put_store(w, d + "/" + sd["name"], sd["files"])
-                r = w.run(argv_of(plan, mode, d, hexmode), order=order)
+                r = w.run(argv_of(plan, mode, d, hexmode), order=order, stdout_encoding=plan.get("stdout_encoding", "utf-8"))
                 evals += 1
                 events += len(r.events)
                 h.update(r.digest.encode())
@@ -256,6 +272,44 @@ def execute(plan):
               "subdirs": [s["name"] for s in plan["subdirs"]], "modes": plan["modes"], "opts": plan["opts"] + plan["flags"]}
     return {"violations": uniq, "stats": stats, "traces": sorted(traces), "events": events, "evals": evals,
             "digest": h.hexdigest(), "sample": sample}
+
+
+def class_search_junk(w, plan):
+    import io, sys as _sys
+    Config = _sys.modules["pel.peltool.config"].Config
+    DataStream = _sys.modules["pel.datastream"].DataStream
+    src = plan["files"][plan["class_search"] % len(plan["files"])]
+    data = pelgen.build(src["recipe"])
+    seen = {}
+    saved = (_sys.stdout, _sys.stderr)
+    _sys.stdout, _sys.stderr = io.StringIO(), io.StringIO()
+    try:
+        for off, width, name in pelgen.field_offsets(src["recipe"]):
+            for o in range(off, off + width):
+                cur = data[o]
+                for val in sorted({0, 1, 23, 0xFF, (cur - 1) & 0xFF, (cur + 1) & 0xFF} - {cur}):
+                    bad = bytearray(data)
+                    bad[o] = val
+                    cfg = Config()
+                    cfg.every_pel = True
+                    try:
+                        w.peltool.parsePEL(DataStream(bytes(bad), byte_order="big", is_signed=False), cfg, False)
+                        cls = "decodes"
+                    except Exception as e:
+                        cls = type(e).__name__
+                    except BaseException as e:      # noqa
+                        cls = "base:" + type(e).__name__
+                    seen.setdefault(cls, []).append({"kind": "flip", "off": o, "val": val, "field": name, "cls": cls})
+    finally:
+        _sys.stdout, _sys.stderr = saved
+    common_classes = ("decodes", "AssertionError", "UnicodeDecodeError")
+    out = []
+    for cls in sorted(seen, key=lambda c: (len(seen[c]), c)):
+        if cls in common_classes or len(out) >= 3:
+            continue
+        j = seen[cls][plan["class_search"] % len(seen[cls])]
+        out.append({"name": "cs-%s-%d" % (cls[:12], len(out)), "recipe": src["recipe"], "junk": j})
+    return out
 
 
 def _excerpt(s):
